@@ -25,7 +25,89 @@ def obligations(tier, seed):
     obs += [make_line(sh) for sh in stmt.line_corpus(tier, seed)]
     obs += termination_obligations(tier, seed)
     obs += cli_obligations(tier, seed)
+    obs += include_obligations()
+    obs += random_line_obligations(tier, seed)
     return obs
+
+
+ALPHABET = "ABXYDUSPCRabxyz019 \t;,#$%<>[]+-*/'\"@:.()=!?&^_"
+
+
+def random_line_obligations(tier, seed):
+    """bug hunting by enumeration (NOT a solver verdict): seeded random lines over the source alphabet, alone and
+    embedded in a valid program; every outcome must be an image or a diagnostic"""
+    import random
+    from vlib.harness import assemble
+    from vlib import shapes as S
+    rnd = random.Random(seed * 7 + 3)
+    mnems = S.MNEMONICS + S.PSEUDO
+    nb, per = (4, 750) if tier == "quick" else (40, 2500)
+    out = []
+    for b in range(nb):
+        lines = []
+        for _ in range(per):
+            style = rnd.random()
+            if style < 0.4:
+                op = "".join(rnd.choice(ALPHABET) for _ in range(rnd.randint(0, 8)))
+                lines.append("%s %s %s" % (rnd.choice(["", "L1", "A", "X9"]), rnd.choice(mnems), op))
+            elif style < 0.7:
+                lines.append("".join(rnd.choice(ALPHABET) for _ in range(rnd.randint(0, 14))))
+            else:
+                base = rnd.choice(stmt.BASE_LINES)
+                s = list(stmt.render(*base))
+                for _k in range(rnd.randint(1, 3)):
+                    pos = rnd.randrange(len(s) + 1)
+                    if rnd.random() < 0.5 and s:
+                        del s[min(pos, len(s) - 1)]
+                    else:
+                        s.insert(pos, rnd.choice(ALPHABET))
+                lines.append("".join(s))
+
+        def body(ctx, lines=lines):
+            bad = []
+            for ln in lines:
+                for progl in ([ln], ["MSG EQU $1000", "K EQU 5", "START NOP", "LOOP NOP", ln, "ENDL NOP"]):
+                    o = assemble(progl)
+                    if o.kind in ("ok", "diag"):
+                        continue
+                    if ctx.known(PID, {"part": "random"}, {"kind": o.kind, "exc": o.exc_name, "site": o.site, "line": ln}):
+                        continue
+                    bad.append((ln, o.describe()))
+                    break
+                if len(bad) > 4:
+                    break
+            return len(bad) == 0, {"lines": len(lines), "bad": bad}
+        ob = Ob("C13:random:%d" % b, body, timeout=900, tags={"part": "random"}, text="%d seeded random lines (enumeration)" % per, r4=False)
+        ob.native_only = True
+        ob.ncases = per * 2
+        out.append(ob)
+    return out
+
+
+def include_obligations():
+    """INCLUDE of something that cannot be read, or of itself, must end in a diagnostic (never a traceback)"""
+    from vlib.harness import MemFS, assemble
+    cases = {
+        "missing": ({}, ["A NOP", " INCLUDE nothere.asm"]),
+        "directory": ({"lib": IsADirectoryError(21, "Is a directory", "lib")}, [" INCLUDE lib"]),
+        "unreadable": ({"x.asm": PermissionError(13, "Permission denied", "x.asm")}, [" INCLUDE x.asm"]),
+        "not-a-dir": ({"a.asm/b.asm": NotADirectoryError(20, "Not a directory", "a.asm/b.asm")}, [" INCLUDE a.asm/b.asm"]),
+        "nested-missing": ({"a.asm": ["C NOP\n", " INCLUDE b.asm\n"]}, [" INCLUDE a.asm"]),
+        "cycle": ({"a.asm": [" INCLUDE b.asm\n"], "b.asm": ["X NOP\n", " INCLUDE a.asm\n"]}, [" INCLUDE a.asm"]),
+        "bad-line-inside": ({"a.asm": ["C NOP\n", " FROB 1\n"]}, [" INCLUDE a.asm"]),
+        "bad-symbol-inside": ({"a.asm": ["C LDA UNDEF\n"]}, [" INCLUDE a.asm", " NOP"]),
+    }
+    out = []
+    for name, (fsmap, lines) in cases.items():
+        def body(ctx, fsmap=fsmap, lines=lines):
+            with MemFS(dict(fsmap)):
+                o = assemble(lines)
+            info = {"outcome": o.describe()}
+            if o.kind == "diag":
+                return True, info
+            return ctx.known(PID, {"part": "include"}, {"kind": o.kind, "exc": o.exc_name}), info
+        out.append(Ob("C13:include:" + name, body, timeout=60, tags={"part": "include"}, text="INCLUDE case " + name, r4=False))
+    return out
 
 
 def termination_obligations(tier, seed):
@@ -92,7 +174,7 @@ def make_line(sh):
     from vlib.harness import assemble
 
     def body(ctx):
-        lines = ["MSG EQU $1000", "K EQU 5", "B EQU 7", sh.raw, "ENDL NOP"]
+        lines = ["MSG EQU $1000", "K EQU 5", "B EQU 7", "START NOP", "LOOP NOP", sh.raw, "ENDL NOP"]
         out = assemble(lines)
         info = {"lines": lines, "outcome": out.describe()}
         if out.kind in ("ok", "diag"):
